@@ -114,6 +114,13 @@ type pppWorld struct {
 	aAddr  net.IP
 	aSID   string
 	viols  []viol
+	wait   func() // synctest.Wait in a bubble; nil under the controlled scheduler
+}
+
+func (w *pppWorld) settle() {
+	if w.wait != nil {
+		w.wait()
+	}
 }
 
 func (w *pppWorld) add(kind, site, f string, a ...any) {
@@ -157,7 +164,7 @@ func (w *pppWorld) take() {
 
 func (w *pppWorld) sess(c *pppClient, proto uint16, payload []byte) {
 	w.srv.VerifC04Session(c.mac, psess(c.sid, proto, payload))
-	synctest.Wait()
+	w.settle()
 	w.take()
 }
 
@@ -174,7 +181,7 @@ func (w *pppWorld) session(c *pppClient) *pppoe.Session {
 func (w *pppWorld) establish(c *pppClient, prefix string) {
 	w.srv.VerifC04Discovery(c.mac, pdisc(pppoe.CodePADI, 0, ptag(pppoe.TagServiceName, nil), ptag(pppoe.TagHostUniq, []byte(c.name))))
 	w.srv.VerifC04Discovery(c.mac, pdisc(pppoe.CodePADR, 0, ptag(pppoe.TagServiceName, []byte("internet")), ptag(pppoe.TagHostUniq, []byte(c.name)), ptag(pppoe.TagACCookie, []byte("0123456789abcdef"))))
-	synctest.Wait() // LCP negotiation goroutine
+	w.settle() // LCP negotiation goroutine
 	w.take()
 	if c.sid == 0 {
 		panic("harness: no PADS for " + c.name)
@@ -212,8 +219,11 @@ func (w *pppWorld) establish(c *pppClient, prefix string) {
 	}
 }
 
-func newPPPWorld(k kase) *pppWorld {
+func newPPPWorld(k kase, bubble bool) *pppWorld {
 	w := &pppWorld{k: k}
+	if bubble {
+		w.wait = synctest.Wait
+	}
 	sc := pppoe.ServerConfig{Interface: "verif0", ACName: "ac", ServiceName: "internet", ServerIP: "10.0.0.1", ClientPool: "10.0.0.0/29", PoolGateway: "10.0.0.1", AuthType: "pap", SessionTimeout: pppoeIdle}
 	srv, err := pppoe.VerifC04NewServer(sc, zap.NewNop(), pppoeServerMAC)
 	if err != nil {
@@ -226,20 +236,22 @@ func newPPPWorld(k kase) *pppWorld {
 	}
 	ctx, cancel := context.WithCancel(context.Background())
 	w.cancel = cancel
-	go srv.VerifC16CleanupLoop(ctx) // what Start launches
+	if bubble {
+		go srv.VerifC16CleanupLoop(ctx) // what Start launches
+	}
 	return w
 }
 
 func (w *pppWorld) close() {
 	w.cancel()
-	synctest.Wait()
+	w.settle()
 	if w.rs != nil {
 		w.rs.close()
 	}
 }
 
 func runPPPoEServer(_ *kenv, k kase) (res result) {
-	w := newPPPWorld(k)
+	w := newPPPWorld(k, true)
 	defer w.close()
 	w.b = &pppClient{name: "bystander", mac: net.HardwareAddr{2, 0, 0, 0, 0, 0x0b}}
 	w.establish(w.b, "IPCP")
@@ -318,7 +330,7 @@ func (w *pppWorld) terminate(path string) {
 	default:
 		panic("unknown termination path " + path)
 	}
-	synctest.Wait()
+	w.settle()
 	w.take()
 }
 
